@@ -366,3 +366,23 @@ Definition apply_fwrite (w : fwrite) (d : db) : db :=
 Definition apply_foreign (ws : list fwrite) (d : db) : db := fold_left (fun d w => apply_fwrite w d) ws d.
 
 Definition with_tabs (d : dbs) (t : db) : dbs := {| d_tabs := t; d_undo := d_undo d |}.
+
+(* ---- a global transaction whose phase one is interleaved with committed foreign writes ---- *)
+Inductive item := IBranch (ss : list stmt) | IForeign (ws : list fwrite).
+
+Fixpoint phase1i (cfg : config) (xid : N) (b : N) (prog : list item) (d : dbs) : dbs * list ukey :=
+  match prog with
+  | [] => (d, [])
+  | IBranch ss :: prog' =>
+      let '(d1, ok) := phase1_branch cfg (xid, b) ss d in
+      let '(d2, bs) := phase1i cfg xid (N.succ b) prog' d1 in
+      (d2, if ok then (xid, b) :: bs else bs)
+  | IForeign ws :: prog' => phase1i cfg xid b prog' (with_tabs d (apply_foreign ws (d_tabs d)))
+  end.
+
+Fixpoint foreign_of (prog : list item) : list fwrite :=
+  match prog with
+  | [] => []
+  | IBranch _ :: prog' => foreign_of prog'
+  | IForeign ws :: prog' => ws ++ foreign_of prog'
+  end.
